@@ -65,6 +65,14 @@ for g in GROUPS:
                 env.holds('identity_ returns the tensor it was called on', R_ is Z)
             I2 = raw(pp.identity_like(lie(pp, g, X)))
             env.eq('identity_like', I2, I)
+            # every call hands out its own tensor: an in-place update of one identity does not leak into the next one
+            Iconst = {'SO3': [0, 0, 0, 1], 'SE3': [0, 0, 0, 0, 0, 0, 1], 'RxSO3': [0, 0, 0, 1, 1], 'Sim3': [0, 0, 0, 0, 0, 0, 1, 1]}[g]
+            Iexp = env.const(Iconst) if env.sym else env.const([float(v) for v in Iconst])          # written out: not an alias of any earlier result
+            E1 = ltype(pp, g).identity()
+            raw(E1).add_(raw(X))
+            env.eq('a fresh identity is the identity whatever happened to earlier ones', raw(ltype(pp, g).identity()), Iexp)
+            L1 = pp.identity_like(lie(pp, g, X)); raw(L1).add_(raw(X))
+            env.eq('identity_like hands out a fresh identity too', raw(pp.identity_like(lie(pp, g, X))), Iexp)
 
         @obligation(f'C03.{g}.homomorphism', functions=F + [f'{OPS}:{g}_Matrix', f'{OPS}:{g}_Matrix4x4'])
         def homo(env):
